@@ -65,6 +65,16 @@ CHECKS.update({
    text="Durable.tla gives the legal post-crash states (every acknowledged event, at most the in-flight ones in addition, same order, idempotent open); the harness produces real process deaths - a child appends and saves offsets, reporting start/ack over a pipe, and is killed with SIGKILL after an arbitrary report - and validates each kill/reopen/append history (up to three generations per database) against the acceptor.",
    note="Process death only, not power loss (WAL + synchronous=NORMAL promises the former); the sandbox's filesystem; one writer per child. Trusted: TLC, the pipe protocol (reports are written unbuffered before/after each call and drained after the kill).", ref="DESIGN.md 5/C14, 4.6"),
 })
+
+UNOTE="Trusted: TLC, the harness' raw upcasters (append their id to a path array in the payload, return the type the script tells them to), a 3 s watchdog for termination."
+CHECKS.update({
+ "C16": dict(technique="TLA+ spec Upcast.tla (registry, transcribed DFS, apply loop with adversarial return types): exhaustive TLC over all small registries; TLC-generated and random operation sequences and racing registrations on the real bus validated against UpcastTrace.tla",
+   text="TLC checks on every registry over 3-4 names with up to 3 edges (all returned-type / failure assignments) that the DFS of the code agrees with reachability, that the declared graph stays acyclic and that apply terminates; every RegisterUpcastFunc result of generated and random sequences (including nil functions, empty names, clears) must equal the specification's accept/reject decision, racing registrations must be linearizable against it, and every ReplayWithUpcast must return within the watchdog.",
+   note=UNOTE, ref="DESIGN.md 5/C16, 4.7"),
+ "C17": dict(technique="TLA+ spec Upcast.tla (ApplyResult: whole chain or nothing): exhaustive TLC; ReplayWithUpcast results on the real bus validated against UpcastTrace.tla; typed upcaster chains compared with f applied to the decoded source value",
+   text="ApplyResult defines the composed data (sequence of upcaster ids), final type and the failure cases; for every apply of generated and random registries the callback of ReplayWithUpcast must have seen exactly that (or the untouched original event with offset and timestamp unchanged when any step failed, with one error-handler call). Typed RegisterUpcast chains are replayed over random payloads with omitted fields and maps and compared with json(f(decode(raw))).",
+   note=UNOTE+" The typed-upcaster clause is a payload-level comparison (random generation), outside the model.", ref="DESIGN.md 5/C17, 4.7"),
+})
 checks=[]
 for p in props:
     c=CHECKS.get(p['id'])
